@@ -293,3 +293,79 @@ def run_c08(tier, seed, replay=None):
         return finish(pid, tier, seed, t0, cov, assumptions, diffs, lambda d: "dictiter/" + d["what"], known, lambda d: d)
     finally:
         sc.close()
+
+
+# ---------------------------------------------------------------------------
+# C11: CtxPool component stage
+
+def ctxpool_stage(zx, sc, tier, seed, known):
+    pid = "C11"
+    q = tier == "quick"
+    cfg = "CtxPoolQ.cfg" if q else "CtxPool.cfg"
+    outp, st = tlc(sc, "CtxPool", cfg=cfg, workers=8, timeout=1800, outname="cp.out")
+    errs = tlc_errors(outp)
+    if errs:
+        raise Inconclusive("CtxPool model: " + "; ".join(errs[:3]))
+    seen = set()
+    with open(sc.path("cpwalks.ndjson"), "w") as fh:
+        for tag, payload in printed(outp, ("WALK", "TABLES")):
+            if tag == "TABLES":
+                open(sc.path("cptables.json"), "w").write(payload)
+            elif payload not in seen:
+                seen.add(payload)
+                fh.write(payload + "\n")
+    os.remove(outp)
+    if not seen:
+        raise Inconclusive("CtxPool model emitted no schedules")
+    total = len(seen)
+    n = sample_lines(sc.path("cpwalks.ndjson"), 10 ** 9 if q else 400000, seed)
+    o2, st2 = tlc(sc, "CtxPool", cfg="CtxPoolOrig.cfg", workers=4, timeout=600, outname="cp2.out")
+    if not any("Exclusive is violated" in e for e in tlc_errors(o2)):
+        raise Inconclusive("CtxPool model does not distinguish the original (double Put) from the repaired design")
+    p = subprocess.run([zx, "ctxpool", "-in", sc.path("cpwalks.ndjson"), "-tables", sc.path("cptables.json"), "-dir", sc.path("cpsegs"),
+                        "-out", sc.path("cpdiffs.ndjson")], stdout=subprocess.PIPE, stderr=subprocess.STDOUT, text=True, timeout=7200)
+    if p.returncode != 0:
+        raise Inconclusive("harness ctxpool failed: " + p.stdout[-1500:])
+    rs = kv(p.stdout)
+    log("G: CtxPool(%s): %d states (Exclusive holds; original design refuted), %d distinct schedules;  R: %s" % (cfg, st["distinct_states"], total, p.stdout.strip()))
+    if rs.get("steps", 0) == 0 or rs.get("maxpool", 0) == 0:
+        raise Inconclusive("vacuous ctxpool replay (pool snapshots never saw an object)")
+    diffs = read_diffs(sc.path("cpdiffs.ndjson"))
+    paths, seenk = [], set()
+    for d in diffs:
+        key = "ctxpool/" + d["what"]
+        if key in seenk or len(paths) >= 3:
+            continue
+        seenk.add(key)
+        log("mismatch %s: %s" % (key, trunc(d, 700)))
+        paths.append(save_replay(pid, seed, 100 + len(paths), {"property": pid, "key": key, "family": "ctxpool", "diff": d}))
+    with open(sc.path("cpwalks.ndjson")) as fh:
+        lines = fh.readlines()
+    cov = {"family": "ctxpool", "states": st["distinct_states"] + st2["distinct_states"], "transitions": st["states_generated"] + st2["states_generated"],
+           "traces_validated_against_impl": n, "samples": [json.loads(lines[len(lines) // 2])],
+           "model": {"module": "CtxPool.tla", "cfg": cfg, "invariants": ["Exclusive"], "refuted_variant": "CtxPoolOrig.cfg (Repaired = FALSE)", "wall_s": st["wall_s"]},
+           "schedules": total, "schedules_replayed": n, "steps_with_pool_snapshot": rs["steps"], "max_pool_size_seen": rs["maxpool"],
+           "configurations": "every schedule alternately on the in-memory and the mmap-opened segment; GOMAXPROCS(1), collector parked, pool snapshot after every step"}
+    return {"cov": cov, "paths": paths}
+
+
+def ctxpool_replay(replay):
+    sc = Scratch()
+    try:
+        zx = build_harness(("verif",))
+        obj = json.load(open(replay))
+        outp, st = tlc(sc, "CtxPool", cfg="CtxPoolQ.cfg", workers=8, timeout=600, outname="cp.out")
+        split_printed(outp, sc, {"TABLES": ("cptables.json", "one")})
+        with open(sc.path("w.ndjson"), "w") as fh:
+            fh.write(json.dumps(obj["diff"]["walk"]) + "\n")
+        p = subprocess.run([zx, "ctxpool", "-in", sc.path("w.ndjson"), "-tables", sc.path("cptables.json"), "-dir", sc.path("cpsegs"),
+                            "-out", sc.path("cpdiffs.ndjson")], stdout=subprocess.PIPE, stderr=subprocess.STDOUT, text=True)
+        diffs = read_diffs(sc.path("cpdiffs.ndjson"))
+        if diffs:
+            log("replay: " + trunc(diffs[0], 800))
+            log("VIOLATION property=C11 replay=%s" % replay)
+            return 1
+        log("replay: no violation of C11 on the current tree")
+        return 0
+    finally:
+        sc.close()
